@@ -710,6 +710,10 @@ def c07(tier, seed, work):
     # 2-4 clients on 2 keys (incl. versioned buckets and multipart on s3mem) + every slow-uploader / slow-reader
     # scenario; exact (breadth-first) linearizability check of every history
     conc_stage(rep, work, "small-exact", allsys, [2, 3, 4], runs=6 if thorough else 3, ops=12, keys=2, gated=True)
+    # every interleaving (at the granularity of the calls made on the backend and of the first body write of a
+    # download) of small programs: 2-4 clients, 1-2 operations each, 1-2 keys, versioned and multipart included
+    conc_stage(rep, work, "all-schedules", allsys, [2, 3, 4] if thorough else [2, 3], runs=0, ops=0, keys=2, gated=False,
+               sched="thorough" if thorough else "quick", timeout=2400)
     # a part uploaded again (large body: looked up, hashed for milliseconds, stored) while a completion naming the old
     # ETags validates and assembles: sweep over the relative start of the two requests
     conc_stage(rep, work, "part-reupload-vs-complete", allsys if thorough else ["mem", "multimem"], [2], runs=0, ops=0, keys=1,
